@@ -32,6 +32,7 @@ def wf : Ty → Val → Bool
   | .str, .bytes bs => bs.length ≤ u32Max && utf8Valid bs
   | .bytes, .bytes bs => bs.length ≤ u32Max
   | .box _ t, v => wf t v
+  | .wrap t, v => wf t v
   | .duration, .seq [.nat secs, .nat nanos] => secs < 2 ^ 64 && nanos < 1000000000
   | .range t, .seq [a, b] => wf t a && wf t b
   | .bitseq store _, .bits bs => storeOk store && bs.length ≤ maxBits
